@@ -183,7 +183,9 @@ def main():
                                 test, _, _ = spaces_for(_g2 or _g, _sk, v1 if not _g2 else (_v if _v in ("segment", "swapped") else "whole"), r)
                                 return O.boundary(api, _f, _o, trial, test, test, _k, assembler=assembler)
 
-                            compare(cid, descr, build, x_complex=(cases % 2 == 1), mech_cls="%s:%s" % ("scalar", variant))
+                            # (a function of the case id, not of a running counter: the sanitizer worker runs a sub-set of the cases
+                            # and must apply the operator to the same vector as its parent)
+                            compare(cid, descr, build, x_complex=bool(int(ctx.rng(cid, "xc").integers(2))), mech_cls="%s:%s" % ("scalar", variant))
                             cases += 1
                 # Maxwell
                 for opname in ("electric_field", "magnetic_field"):
